@@ -7,10 +7,37 @@
 //!        r K         remove            p           pop -> K=ID:SZ | -
 //!        s           approximate_size -> number
 //!     after the ops the cache is drained with pop: `| size K=ID:SZ ...` (LRU first)
+//!
+//!   lruc CAP SEED ; op , op , .. ; op , ..     one op list per thread on one shared cache; every
+//!        op is tagged (thread*1000 + position + 1) and the hook records the tag inside the
+//!        cache's critical section, so the trace is the linearisation order.  Output:
+//!        `T tag tag ..` (that order) `| tag=result ..` (lookups / pops) `| size K=ID:SZ ..`
+//!
+//!   wl SLOTS ; op ; op ...     one client thread driving a WaitList<u64> with SLOTS slots (hook
+//!                              verif::set_slots); every link runs in a helper thread so that it
+//!                              may block.  L V link | U K unlink K-th owned guard (mod count) |
+//!        N notify_head | S K V store | G K load | H K is_head | C K count | I K iterate from K
+//!        | W K D get_waiter(index(K)+D).   Output: the recorded event trace, `tid:what:a:b:c`
+//!        tokens (harness observations are events r_* of thread 0), then `| HANG` if a woken link
+//!        never reported back.
+//!
+//!   wcq SLOTS LIMIT MODULUS WORKDELAY SEED ; in in .. ; in in ..     one group of inputs per
+//!        thread; each thread calls do_work for its inputs in turn.  The core batches while
+//!        acc.len() < LIMIT and (MODULUS == 0 or input % MODULUS != 0); work() returns
+//!        (input, batch number, position) per input.  Output: `R tid:in>in.batch.pos,.. ;..` then
+//!        `| B first:in,in ;..` (the core's log) then `| E tid:what:a:b:c ..` (trace); HANG if the
+//!        threads do not finish within the watchdog time.
 use std::io::BufRead;
 use std::panic::{catch_unwind, AssertUnwindSafe};
 
+use std::sync::mpsc;
+use std::sync::{Arc, Mutex};
+use std::time::{Duration, Instant};
+
 use sync42::lru::{LeastRecentlyUsedCache, Value};
+use sync42::verif;
+use sync42::wait_list::{WaitGuard, WaitList};
+use sync42::work_coalescing_queue::{WorkCoalescingCore, WorkCoalescingQueue};
 
 #[derive(Clone, Debug)]
 struct Val {
@@ -24,7 +51,7 @@ impl Value for Val {
     }
 }
 
-fn lru_case(rest: &str, outs: &std::sync::Mutex<Vec<String>>) {
+fn lru_case(rest: &str, outs: &Mutex<Vec<String>>) {
     let mut parts = rest.split(';');
     let cap: usize = parts.next().unwrap().trim().parse().unwrap();
     let lru: LeastRecentlyUsedCache<u64, Val> = LeastRecentlyUsedCache::new(cap);
@@ -57,13 +84,402 @@ fn lru_case(rest: &str, outs: &std::sync::Mutex<Vec<String>>) {
     }
 }
 
+fn lruc_case(rest: &str, outs: &Mutex<Vec<String>>) {
+    let mut parts = rest.split(';');
+    let head: Vec<u64> = parts.next().unwrap().split_whitespace().map(|x| x.parse().unwrap()).collect();
+    let (cap, seed) = (head[0] as usize, head[1]);
+    let progs: Vec<Vec<Vec<String>>> = parts
+        .map(|p| {
+            p.split(',')
+                .map(|o| o.split_whitespace().map(|x| x.to_string()).collect::<Vec<_>>())
+                .filter(|o| !o.is_empty())
+                .collect()
+        })
+        .collect();
+    let lru: Arc<LeastRecentlyUsedCache<u64, Val>> = Arc::new(LeastRecentlyUsedCache::new(cap));
+    let results: Arc<Mutex<Vec<(u64, String)>>> = Arc::new(Mutex::new(Vec::new()));
+    let barrier = Arc::new(std::sync::Barrier::new(progs.len()));
+    verif::start();
+    let mut handles = Vec::new();
+    for (tid, prog) in progs.into_iter().enumerate() {
+        let lru = Arc::clone(&lru);
+        let results = Arc::clone(&results);
+        let barrier = Arc::clone(&barrier);
+        handles.push(std::thread::spawn(move || {
+            verif::set_tid(tid as u64);
+            let mut rng = hx::Rng(seed.wrapping_mul(0x9E3779B97F4A7C15) ^ (tid as u64 + 1));
+            let mut mine = Vec::new();
+            barrier.wait();
+            for (k, t) in prog.iter().enumerate() {
+                let tag = tid as u64 * 1000 + k as u64 + 1;
+                verif::set_tag(tag);
+                if rng.below(3) == 0 {
+                    std::thread::yield_now();
+                }
+                let n = |i: usize| t[i].parse::<u64>().unwrap();
+                match t[0].as_str() {
+                    "i" => lru.insert(n(1), Val { id: n(2), sz: n(3) as usize }),
+                    "n" => lru.insert_no_evict(n(1), Val { id: n(2), sz: n(3) as usize }),
+                    "l" => mine.push((tag, match lru.lookup(&n(1)) {
+                        Some(v) => format!("{}:{}", v.id, v.sz),
+                        None => "-".to_string(),
+                    })),
+                    "r" => lru.remove(&n(1)),
+                    "p" => mine.push((tag, match lru.pop() {
+                        Some((k, v)) => format!("{}={}:{}", k, v.id, v.sz),
+                        None => "-".to_string(),
+                    })),
+                    _ => panic!("bad lruc op {:?}", t),
+                }
+            }
+            results.lock().unwrap().extend(mine);
+        }));
+    }
+    let mut panicked = false;
+    for h in handles {
+        panicked |= h.join().is_err();
+    }
+    let tr = verif::take();
+    let order: Vec<String> = tr.iter().filter(|e| e.what.starts_with("lru_")).map(|e| e.a.to_string()).collect();
+    let mut o = outs.lock().unwrap();
+    o.push(format!("T {}", order.join(" ")));
+    let mut res = results.lock().unwrap().clone();
+    res.sort();
+    o.push(format!("| {}", res.iter().map(|(t, r)| format!("{}={}", t, r)).collect::<Vec<_>>().join(" ")));
+    o.push(format!("| {}", lru.approximate_size()));
+    while let Some((k, v)) = lru.pop() {
+        o.push(format!("{}={}:{}", k, v.id, v.sz));
+    }
+    if panicked {
+        o.push("PANIC".to_string());
+    }
+}
+
+fn dump_trace(tr: &[verif::Event]) -> String {
+    tr.iter()
+        .map(|e| format!("{}:{}:{}:{}:{}", e.tid, e.what, e.a, e.b, e.c))
+        .collect::<Vec<_>>()
+        .join(" ")
+}
+
+// ------------------------------------------------------------------------------- wait list
+fn link_events(tid: u64) -> usize {
+    verif::count(|e| e.tid == tid && (e.what == "link" || e.what == "link_wait"))
+}
+
+// Waits are generous: a verdict of "blocked forever" must not be an artefact of a loaded
+// machine.  `ms` is multiplied by 8 (so 5 s becomes 40 s) before giving up.
+fn wait_until(f: impl Fn() -> bool, ms: u64) -> bool {
+    let ms = ms * 8;
+    let t0 = Instant::now();
+    let mut spins = 0u32;
+    while !f() {
+        if t0.elapsed() > Duration::from_millis(ms) {
+            return false;
+        }
+        spins += 1;
+        if spins < 200 {
+            std::thread::yield_now();
+        } else {
+            std::thread::sleep(Duration::from_micros(50));
+        }
+    }
+    true
+}
+
+fn wl_case(rest: &str, outs: &Mutex<Vec<String>>) {
+    let mut parts = rest.split(';');
+    let slots: usize = parts.next().unwrap().trim().parse().unwrap();
+    verif::set_slots(slots);
+    let list: &'static WaitList<u64> = Box::leak(Box::new(WaitList::new()));
+    verif::set_slots(0);
+    verif::set_tid(0);
+    verif::start();
+    let (tx, rx) = mpsc::channel::<(u64, WaitGuard<'static, u64>)>();
+    let mut owned: Vec<WaitGuard<'static, u64>> = Vec::new();
+    let mut blocked: Vec<u64> = Vec::new(); // tids of helper threads inside link()
+    let mut next_tid = 1u64;
+    let mut hang = false;
+    let mut handles = Vec::new();
+    // collect guards of helpers that have linked (in the order of their "link" events)
+    let collect = |owned: &mut Vec<WaitGuard<'static, u64>>, blocked: &mut Vec<u64>| {
+        while let Ok((tid, g)) = rx.try_recv() {
+            blocked.retain(|t| *t != tid);
+            owned.push(g);
+        }
+        owned.sort_by_key(|g| {
+            // WaitGuard::index takes &mut self; read it through Debug instead of mutating
+            let d = format!("{:?}", g);
+            let i = d.find("index: ").unwrap() + 7;
+            d[i..].split(|c: char| !c.is_ascii_digit()).next().unwrap().parse::<u64>().unwrap()
+        });
+    };
+    for op in parts {
+        let t: Vec<&str> = op.split_whitespace().collect();
+        if t.is_empty() {
+            continue;
+        }
+        let n = |i: usize| t[i].parse::<u64>().unwrap();
+        collect(&mut owned, &mut blocked);
+        match t[0] {
+            "L" => {
+                let tid = next_tid;
+                next_tid += 1;
+                let v = n(1);
+                verif::event("r_link_call", tid, v, 0);
+                let tx = tx.clone();
+                handles.push(std::thread::spawn(move || {
+                    verif::set_tid(tid);
+                    let g = list.link(v);
+                    let _ = tx.send((tid, g));
+                }));
+                if !wait_until(|| link_events(tid) >= 1, 5000) {
+                    hang = true;
+                    break;
+                }
+                if verif::count(|e| e.tid == tid && e.what == "link") >= 1 {
+                    // linked: take the guard
+                    let (rt, g) = rx.recv_timeout(Duration::from_millis(40000)).unwrap();
+                    if rt == tid {
+                        owned.push(g);
+                    } else {
+                        blocked.retain(|x| *x != rt);
+                        owned.push(g);
+                        blocked.push(tid);
+                    }
+                } else {
+                    blocked.push(tid);
+                }
+            }
+            "U" => {
+                if owned.is_empty() {
+                    continue;
+                }
+                let k = (n(1) as usize) % owned.len();
+                let g = owned.remove(k);
+                let before: usize = blocked.iter().map(|b| link_events(*b)).sum();
+                let nb = verif::count(|e| e.what == "notify_available");
+                list.unlink(g);
+                let notified = verif::count(|e| e.what == "notify_available") > nb;
+                if notified && !blocked.is_empty() {
+                    // notify_one on a condition variable with sleepers wakes one of them: wait
+                    // until it has re-tested and either linked or gone back to sleep
+                    let bl = blocked.clone();
+                    // (if nobody reports back in time the run goes on: whether a blocked link is
+                    // left behind for good is decided at the end, when nothing else can wake it)
+                    let _ = wait_until(|| bl.iter().map(|b| link_events(*b)).sum::<usize>() > before, 250);
+                    // give the guard (if it linked) time to arrive
+                    std::thread::sleep(Duration::from_micros(200));
+                }
+            }
+            "N" => list.notify_head(),
+            "S" | "G" | "H" | "C" | "I" | "W" => {
+                if owned.is_empty() {
+                    continue;
+                }
+                let k = (n(1) as usize) % owned.len();
+                let g = &mut owned[k];
+                let idx = g.index();
+                match t[0] {
+                    "S" => {
+                        verif::event("r_store", idx, n(2), 0);
+                        g.store(n(2))
+                    }
+                    "G" => {
+                        let v = g.load();
+                        verif::event("r_load", idx, v, 0);
+                    }
+                    "H" => {
+                        let b = g.is_head();
+                        verif::event("r_is_head", idx, b as u64, 0);
+                    }
+                    "C" => {
+                        let c = g.count();
+                        verif::event("r_count", idx, c, 0);
+                    }
+                    "I" => {
+                        let g: &'static mut WaitGuard<'static, u64> = unsafe { &mut *(g as *mut _) };
+                        let mut cnt = 0u64;
+                        let mut last = idx;
+                        let mut ok = 1u64;
+                        for mut w in g.iter() {
+                            let wi = w.index();
+                            if wi != idx + cnt {
+                                ok = 0;
+                            }
+                            last = wi;
+                            cnt += 1;
+                        }
+                        verif::event("r_iter", idx, cnt, ok * (last + 1));
+                    }
+                    "W" => {
+                        let target = idx + n(2);
+                        let r = g.get_waiter(target).is_some();
+                        verif::event("r_get_waiter", idx, target, r as u64);
+                    }
+                    _ => unreachable!(),
+                }
+            }
+            _ => panic!("bad wl op {:?}", t),
+        }
+    }
+    collect(&mut owned, &mut blocked);
+    // wind down: unlink everything so that blocked helpers can finish
+    while !hang {
+        collect(&mut owned, &mut blocked);
+        if !owned.is_empty() {
+            let g = owned.remove(0);
+            list.unlink(g);
+            std::thread::sleep(Duration::from_micros(200));
+        } else if !blocked.is_empty() {
+            // every guard is gone, so the list has room: a helper still inside link() must come
+            // back (it was notified by the unlink that made room, or by a later one)
+            match rx.recv_timeout(Duration::from_millis(40000)) {
+                Ok((tid, g)) => {
+                    blocked.retain(|t| *t != tid);
+                    owned.push(g);
+                }
+                Err(_) => hang = true,
+            }
+        } else {
+            break;
+        }
+    }
+    let tr = verif::take();
+    outs.lock().unwrap().push(dump_trace(&tr));
+    if hang {
+        outs.lock().unwrap().push("| HANG".to_string());
+    } else {
+        for h in handles {
+            let _ = h.join();
+        }
+    }
+}
+
+// ------------------------------------------------------------------- work coalescing queue
+struct HxCore {
+    limit: usize,
+    modulus: u64,
+    delay_us: u64,
+    batches: Vec<Vec<u64>>,
+}
+
+impl WorkCoalescingCore<u64, (u64, u64, u64)> for HxCore {
+    type InputAccumulator = Vec<u64>;
+    type OutputIterator<'a> = std::vec::IntoIter<(u64, u64, u64)>;
+
+    fn can_batch(&self, acc: &Vec<u64>, other: &u64) -> bool {
+        acc.len() < self.limit && (self.modulus == 0 || other % self.modulus != 0)
+    }
+
+    fn batch(&mut self, mut acc: Vec<u64>, other: u64) -> Vec<u64> {
+        acc.push(other);
+        acc
+    }
+
+    fn work(&mut self, taken: usize, acc: Vec<u64>) -> Self::OutputIterator<'_> {
+        assert_eq!(taken, acc.len());
+        let b = self.batches.len() as u64;
+        self.batches.push(acc.clone());
+        if self.delay_us > 0 {
+            std::thread::sleep(Duration::from_micros(self.delay_us));
+        }
+        acc.iter()
+            .enumerate()
+            .map(|(j, x)| (*x, b, j as u64))
+            .collect::<Vec<_>>()
+            .into_iter()
+    }
+}
+
+fn wcq_case(rest: &str, outs: &Mutex<Vec<String>>) {
+    let mut parts = rest.split(';');
+    let head: Vec<u64> = parts.next().unwrap().split_whitespace().map(|x| x.parse().unwrap()).collect();
+    let (slots, limit, modulus, delay, seed) = (head[0] as usize, head[1] as usize, head[2], head[3], head[4]);
+    let progs: Vec<Vec<u64>> = parts
+        .map(|p| p.split_whitespace().map(|x| x.parse().unwrap()).collect())
+        .collect();
+    verif::set_slots(slots);
+    let q = Arc::new(WorkCoalescingQueue::new(HxCore { limit, modulus, delay_us: delay, batches: Vec::new() }));
+    verif::set_slots(0);
+    verif::start();
+    let nthreads = progs.len();
+    let results: Arc<Mutex<Vec<Vec<(u64, Option<(u64, u64, u64)>)>>>> = Arc::new(Mutex::new(vec![Vec::new(); nthreads]));
+    let done = Arc::new(std::sync::atomic::AtomicUsize::new(0));
+    let barrier = Arc::new(std::sync::Barrier::new(nthreads));
+    let mut handles = Vec::new();
+    for (tid, prog) in progs.into_iter().enumerate() {
+        let q = Arc::clone(&q);
+        let results = Arc::clone(&results);
+        let done = Arc::clone(&done);
+        let barrier = Arc::clone(&barrier);
+        handles.push(std::thread::spawn(move || {
+            verif::set_tid(tid as u64);
+            let mut rng = hx::Rng(seed.wrapping_mul(0x9E3779B97F4A7C15) ^ (tid as u64 + 1));
+            barrier.wait();
+            for input in prog {
+                match rng.below(4) {
+                    0 => {}
+                    1 => std::thread::yield_now(),
+                    2 => {
+                        for _ in 0..rng.below(2000) {
+                            std::hint::spin_loop();
+                        }
+                    }
+                    _ => std::thread::sleep(Duration::from_micros(rng.below(120))),
+                }
+                let r = catch_unwind(AssertUnwindSafe(|| q.do_work(input)));
+                results.lock().unwrap()[tid].push((input, r.ok()));
+            }
+            done.fetch_add(1, std::sync::atomic::Ordering::SeqCst);
+        }));
+    }
+    let finished = wait_until(|| done.load(std::sync::atomic::Ordering::SeqCst) == nthreads, 8000);
+    let tr = verif::take();
+    let res = results.lock().unwrap().clone();
+    let mut r = String::from("R");
+    for (tid, rs) in res.iter().enumerate() {
+        r.push_str(&format!(" {}:", tid));
+        let v: Vec<String> = rs
+            .iter()
+            .map(|(i, o)| match o {
+                Some((a, b, c)) => format!("{}>{}.{}.{}", i, a, b, c),
+                None => format!("{}>PANIC", i),
+            })
+            .collect();
+        r.push_str(&v.join(","));
+    }
+    outs.lock().unwrap().push(r);
+    if finished {
+        for h in handles {
+            let _ = h.join();
+        }
+        let core = q.get_core();
+        let b: Vec<String> = core
+            .batches
+            .iter()
+            .map(|b| b.iter().map(|x| x.to_string()).collect::<Vec<_>>().join(","))
+            .collect();
+        outs.lock().unwrap().push(format!("| B {}", b.join(";")));
+    } else {
+        outs.lock().unwrap().push("| HANG".to_string());
+    }
+    outs.lock().unwrap().push(format!("| E {}", dump_trace(&tr)));
+    if !finished {
+        // threads are stuck inside the queue: nothing sane can follow in this process
+        let o = outs.lock().unwrap().join(" ");
+        println!("{}", o);
+        std::process::exit(3);
+    }
+}
+
 fn main() {
     hx::quiet_panics();
     let stdin = std::io::stdin();
     for line in stdin.lock().lines() {
         let line = line.unwrap();
         let line = line.trim();
-        let outs = std::sync::Mutex::new(Vec::<String>::new());
+        let outs = Mutex::new(Vec::<String>::new());
         let r = catch_unwind(AssertUnwindSafe(|| {
             let (mode, rest) = match line.find(' ') {
                 Some(i) => (&line[..i], &line[i + 1..]),
@@ -72,6 +488,9 @@ fn main() {
             match mode {
                 "" => {}
                 "lru" => lru_case(rest, &outs),
+                "lruc" => lruc_case(rest, &outs),
+                "wl" => wl_case(rest, &outs),
+                "wcq" => wcq_case(rest, &outs),
                 _ => panic!("bad mode"),
             }
         }));
